@@ -80,6 +80,18 @@ def vtrunc (v : V2) : IVec := ⟨truncR v.x, truncR v.y⟩
 def vltZero (v : V2) : BVec := ⟨decide (v.x < 0), decide (v.y < 0)⟩
 /-- `b[m] = s[m]` -/
 def vwhere (m : BVec) (s b : V2) : V2 := ⟨if m.x then s.x else b.x, if m.y then s.y else b.y⟩
+/-- a FRESH array (`x.copy()`): only such a value may be updated in place by the translated statements — when the
+source drops the copy, the in-place statement is applied to a caller's array, which no longer type-checks here -/
+structure Owned (α : Type) where
+  val : α
+class AsVec (α : Type) where
+  vec : α → V2
+instance : AsVec V2 := ⟨id⟩
+instance : AsVec (Owned V2) := ⟨Owned.val⟩
+instance : HSub V2 (Owned V2) V2 := ⟨fun a b => a - b.val⟩
+@[simp] theorem hsub_owned (a : V2) (b : Owned V2) : a - b = a - b.val := rfl
+/-- `b[m] = s[m]` on an owned array -/
+def Owned.vwhere (m : BVec) (s : V2) (b : Owned V2) : Owned V2 := ⟨Src.vwhere m s b.val⟩
 def vsum (v : V2) : Rat := v.x + v.y
 def vmin (v : V2) : Rat := if v.y < v.x then v.y else v.x
 def vmax (v : V2) : Rat := if v.x < v.y then v.y else v.x
